@@ -98,7 +98,7 @@ def main(argv=None):
             print("  %s" % f.detail)
         if selftest_result is not None:
             print("selftest: %(mutants)d mutant(s): %(caught)d caught, %(stale)d stale, "
-                  "%(missed)d missed; silent-on-normalised-copy=%(silent_ok)s" % selftest_result)
+                  "%(missed)d missed; silent-on-normalised-copy=%(silent_ok)s; silent-on-==-operand-swap=%(silent_on_eq_operand_swap)s" % selftest_result)
         if not args.no_evidence:
             report.write_evidence(
                 ctx, len(new), mod.EXPLANATION, mod.ASSUMPTIONS,
